@@ -180,3 +180,27 @@ def shards(items, n):
     """Split a list into n interleaved shards (deterministic)."""
     items = list(items)
     return [items[i::n] for i in range(n) if items[i::n]]
+
+
+def rigid_signature(name="n", windings=(-1, 0, 1), generic=True, swaps=True):
+    """Cups/caps/swaps and a few generic boxes over the adjoints of one basic type."""
+    atoms = [atom_str(name, z) for z in windings]
+    zs = set(windings)
+    sig = []
+    for za in windings:
+        for zb in windings:
+            if abs(za - zb) == 1:  # every adjoint pair, in both orders
+                sig.append(("cap", atom_str(name, za), atom_str(name, zb)))
+                sig.append(("cup", atom_str(name, za), atom_str(name, zb)))
+    if swaps:
+        for a in atoms[:2]:
+            for b in atoms[:2]:
+                sig.append(("swap", a, b))
+    if generic:
+        base = atom_str(name, 0)
+        for a in atoms:
+            sig.append(("box", "f_" + a, (a,), (a,)))
+        sig += [("box", "g", (base,), (base, base)), ("box", "h", (base, base), (base,)),
+                ("box", "u", (), (base,)), ("box", "e", (base,), ()), ("box", "s", (), ()),
+                ("box", "gd", (base, base), (base,), True)]
+    return atoms, sig
